@@ -589,7 +589,14 @@ func (x *Engine) makeIface(fr *Frame, st *State, v Val, from, to types.Type) Val
 		payload = fmt.Sprintf("(box_%s %s)", mangle(s), v.T)
 		x.emit(fmt.Sprintf("(assert (= (unbox_%s %s) %s))", mangle(s), payload, v.T))
 	}
-	return Val{T: x.name("if", "Iface", fmt.Sprintf("(mk_iface %d %s)", tag, payload)), Typ: to, Clo: v.Clo}
+	r := Val{T: x.name("if", "Iface", fmt.Sprintf("(mk_iface %d %s)", tag, payload)), Typ: to, Clo: v.Clo}
+	if _, isP := from.Underlying().(*types.Pointer); isP {
+		if x.putType == nil {
+			x.putType = map[string]*boxed{}
+		}
+		x.putType[r.T] = &boxed{typ: from, ref: v.T}
+	}
+	return r
 }
 
 func (x *Engine) unbox(iface string, t types.Type) string {
@@ -625,6 +632,12 @@ func (x *Engine) typeAssert(fr *Frame, st *State, i *ssa.TypeAssert) Val {
 	st.live = x.name("live", "Bool", andTerms(st.live, ok))
 	rv := Val{T: x.name("ta", x.sortOf(i.AssertedType), res), Typ: i.AssertedType}
 	x.assume(st, x.wf(i.AssertedType, rv.T, st))
+	if v.Pooled {
+		if g, c := x.poolInv(st, i.AssertedType, rv.T); c != nil {
+			x.assume(st, g)
+			x.assumedC["pool invariant of "+typeName(i.AssertedType)+" (objects in the pool are as left by New/Reset and held by nobody else)"] = true
+		}
+	}
 	return rv
 }
 
@@ -734,4 +747,9 @@ func (x *Engine) iterKey(fr *Frame, r *ssa.Range) string {
 	key := fmt.Sprintf("Iter:%d:%s", fr.id, r.Name())
 	x.regComp(key, fmt.Sprintf("(Array %s Bool)", x.sortOf(mt.Key())))
 	return key
+}
+
+type boxed struct {
+	typ types.Type
+	ref string
 }
